@@ -1115,6 +1115,39 @@ func dialFailed(w *world.World, addr string) bool {
 func c20Scenarios(tier string) []*world.Scenario {
 	out := c20Reparent()
 	out = append(out, c20BanRecovery(0, tier), c20BanRecovery(1, tier))
+	// a replica leaves the description for one update (a transient failure flag) and is listed again at the same address:
+	// afterwards it serves reads like its sibling
+	{
+		base := append(T3m(),
+			world.NodeSpec{Name: "a1", Addr: AddrA1, Master: "aaa"},
+			world.NodeSpec{Name: "a2", Addr: AddrA2, Master: "aaa"},
+			world.NodeSpec{Name: "b1", Addr: AddrB1, Master: "bbb"})
+		without := append(T3m(),
+			world.NodeSpec{Name: "a1", Addr: AddrA1, Master: "aaa"},
+			world.NodeSpec{Name: "a2", Addr: AddrA2, Master: "aaa", Flags: "fail?", Link: "disconnected"},
+			world.NodeSpec{Name: "b1", Addr: AddrB1, Master: "bbb"})
+		for _, gone := range []string{"flagged-fail", "absent"} {
+			wo := without
+			if gone == "absent" {
+				wo = append(append([]world.NodeSpec{}, without[:4]...), without[5:]...)
+			}
+			sc := c20TrafficMix(2, "R", 5)
+			sc.Nodes = base
+			sc.Family = "replica-left-and-returned"
+			sc.Name = "C20/replica-left-and-returned/" + gone
+			sc.Faults = []world.Fault{{Kind: "topo", Nodes: wo}, {Kind: "topo", Nodes: base, AfterTicks: 1}}
+			sc.Ticks = []time.Duration{1100 * time.Millisecond, 1100 * time.Millisecond}
+			sc.TickGate = func(w *world.World) bool {
+				return (w.Ticks == 0 && len(w.Sc.Faults) > 0 && w.FaultsUsed() >= 1) || (w.Ticks == 1 && w.FaultsDone())
+			}
+			cl := sc.Clients[0]
+			for j := range cl.Chunks {
+				cl.Chunks[j].WaitTicks = 2
+			}
+			sc.Clients = []world.ClientSpec{cl}
+			out = append(out, sc)
+		}
+	}
 	// the node description lists replicas BEFORE their masters (CLUSTER NODES output has no particular order): every
 	// replica still serves reads
 	for nrep := 2; nrep <= 3; nrep++ {
